@@ -49,15 +49,28 @@ func Compile(text string) (w coraza.WAF, err error, panicked string) {
 }
 
 // Feed adds the request data of the scenario to a transaction through the public API.
+//
+// Equal names share one Go string (as they do when the library parses a query string itself:
+// url.ParseQuery hands every value of a name the same key string), because the transformation
+// cache identifies a key by the address of its bytes.
 func Feed(tx types.Transaction, req []Entry) {
+	intern := map[string]string{}
+	key := func(b Bytes) string {
+		s := string(b)
+		if v, ok := intern[s]; ok {
+			return v
+		}
+		intern[s] = s
+		return s
+	}
 	for _, e := range req {
 		switch e.C {
 		case "ARGS_GET":
-			tx.AddGetRequestArgument(string(e.K), string(e.V))
+			tx.AddGetRequestArgument(key(e.K), string(e.V))
 		case "ARGS_POST":
-			tx.AddPostRequestArgument(string(e.K), string(e.V))
+			tx.AddPostRequestArgument(key(e.K), string(e.V))
 		case "REQUEST_HEADERS":
-			tx.AddRequestHeader(string(e.K), string(e.V))
+			tx.AddRequestHeader(key(e.K), string(e.V))
 		case "REQUEST_COOKIES":
 			tx.AddRequestHeader("Cookie", string(e.K)+"="+string(e.V))
 		case "RESPONSE_HEADERS":
